@@ -328,6 +328,17 @@ class CertFam(Family):
                 L.append(f"batch-verify {v} {a} {i}={m}")                # same digest, other kind
                 L.append(f"batch-verify {v} {a} {i}=enc:{i}:{m}")
                 L.append(f"verify {v} {a} {m}")
+            elif kind == "qc" and len(use) >= 2 and scheme != "bls12" and rng.random() < 0.35:
+                # the same signature bytes, cut at another place between the first two signers, after the
+                # genuine multi-signature was remembered
+                a = nm("c")
+                L.append(f"combine {R()} {a} p{use[0]} p{use[1]}")
+                L.append(f"verify {v} {a} blk:B1")
+                b = nm("r")
+                lo, hi = sorted(use[:2])
+                L.append(f"multi {b} {lo}:cutA10@{a} {hi}:cutB10@{a}")
+                L.append(f"verify {v} {b} blk:B1")
+                L.append(f"verify {v} {a} blk:B1")
             elif kind == "single":
                 i = use[0]
                 L.append(f"verify {v} p{i} blk:B1")                      # warm
